@@ -103,7 +103,8 @@ def lean_nat_list(xs):
 
 
 def lean_char_list(s):
-    return "[" + ", ".join(f"Char.ofNat {ord(c)}" for c in s) + "]"
+    """characters as their code points (`ord`)"""
+    return "[" + ", ".join(str(ord(c)) for c in s) + "]"
 
 
 def load_module(repo: Path):
@@ -191,11 +192,11 @@ def translate(repo: Path):
         "/-- `NucleotideDataType.NUCLEOTIDE_AMBIGUITY_STATES`: code → tip vector over A,C,G,T -/",
         "def nucAmbig : List (List Nat) := [" + ", ".join(lean_nat_list(r) for r in ambig_rows) + "]",
         "",
-        "/-- the literal of `string not in '…'` in `NucleotideDataType.partial` -/",
-        f"def nucPlain : List Char := {lean_char_list(lit)}",
+        "/-- the literal of `string not in '…'` in `NucleotideDataType.partial` (code points) -/",
+        f"def nucPlain : List Nat := {lean_char_list(lit)}",
         "",
         "/-- the states tuple passed to `AbstractDataType.__init__` -/",
-        f"def nucStateChars : List Char := {lean_char_list(''.join(nuc_states_tuple))}",
+        f"def nucStateChars : List Nat := {lean_char_list(''.join(nuc_states_tuple))}",
         "",
         "/-- `AminoAcidDataType.AMINO_ACIDS_STATES` -/",
         f"def aaStates : List Nat := {lean_nat_list(aa_states)}",
@@ -203,10 +204,10 @@ def translate(repo: Path):
         "/-- `AminoAcidDataType.AMINO_ACIDS_AMBIGUITY_STATES` (value after the class body ran) -/",
         "def aaAmbig : List (List Nat) := [" + ",\n  ".join(lean_nat_list(r) for r in aa_rows) + "]",
         "",
-        f"def aaPlain : List Char := {lean_char_list(alit)}",
+        f"def aaPlain : List Nat := {lean_char_list(alit)}",
         "",
         "/-- `AminoAcidDataType.AMINO_ACIDS[:20]` -/",
-        f"def aaStateChars : List Char := {lean_char_list(aa_alphabet[:20])}",
+        f"def aaStateChars : List Nat := {lean_char_list(aa_alphabet[:20])}",
         "",
         "end TTGen.C01",
         "",
